@@ -259,6 +259,13 @@ theorem step_mono (s s' : St) (e : Ev) (ha : AllRec s) (hs : step s e = some s')
       · simp at hs; subst hs; exact StepMono.frame rfl (fun _ h => h)
       all_goals cases hs
     · cases hs
+  | envErr a e0 =>
+    simp only [step, stepI] at hs
+    split at hs
+    · split at hs
+      · simp at hs; subst hs; exact StepMono.frame rfl (fun _ h => h)
+      all_goals cases hs
+    · cases hs
   | giveUp n =>
     simp only [step, stepI] at hs
     split at hs
@@ -920,7 +927,7 @@ theorem doom_step (s s' : St) (e : Ev) (ms : C05aSt) (hl : DoomLink s ms) (ha : 
       · split at hs
         · rename_i hst
           simp at hs; subst hs
-          exact fin (Or.inr (by rw [hst.2]; rfl))
+          exact fin (Or.inr (by obtain ⟨e, he⟩ := wxOK_wx hst.2; rw [he]; rfl))
         · cases hs
     · cases hs
   | wake a =>
@@ -956,6 +963,13 @@ theorem doom_step (s s' : St) (e : Ev) (ms : C05aSt) (hl : DoomLink s ms) (ha : 
     · simp at hs; subst hs; exact hl.keep hm rfl (WrSame.of_eq rfl)
     · cases hs
   | envCancelW a =>
+    simp only [step, stepI] at hs
+    split at hs
+    · split at hs
+      · simp at hs; subst hs; exact ⟨ms, rfl, hl.keep hm rfl (WrSame.of_eq rfl)⟩
+      all_goals cases hs
+    · cases hs
+  | envErr a e0 =>
     simp only [step, stepI] at hs
     split at hs
     · split at hs
@@ -1228,6 +1242,7 @@ theorem c05b_step (s s' : St) (e : Ev) (msA : C04St) (hc : Cur s) (hl : LinkA s 
   | cbout k o' => simp only [Ev.obs, Option.some.injEq] at ho; subst ho; rfl
   | envCancel c => simp only [Ev.obs, Option.some.injEq] at ho; subst ho; rfl
   | envCancelW a => simp only [Ev.obs, Option.some.injEq] at ho; subst ho; rfl
+  | envErr a e0 => simp only [Ev.obs, Option.some.injEq] at ho; subst ho; rfl
   | probeCtx k b => simp only [Ev.obs, Option.some.injEq] at ho; subst ho; rfl
   | probeW a b => simp only [Ev.obs, Option.some.injEq] at ho; subst ho; rfl
   | cs a => simp [Ev.obs] at ho
